@@ -188,7 +188,7 @@ theorem pair_fst {α} {p : Option α × AState} {a : Option α} {t : AState} (h 
 
 /-- the mandatory cells are collected without touching the models -/
 theorem rowCells_models (s : AState) (vals : List (Option CifValue)) : (rowCells s vals).2.models = s.models := by
-  unfold rowCells
+  unfold rowCells bindS
   simp only
   repeat' split
   all_goals grind [reqCol_models, rowResNum_models, rowChain_models]
@@ -202,7 +202,7 @@ theorem rowCells_some (s t : AState) (vals : List (Option CifValue)) (c : RowCel
     (colText ((vals[14]?).join)).val = some c.resName ∧
     (colF64 ((vals[24]?).join)).val = some c.x ∧ (colF64 ((vals[25]?).join)).val = some c.y ∧
     (colF64 ((vals[26]?).join)).val = some c.z := by
-  unfold rowCells at h
+  unfold rowCells bindS at h
   simp only at h
   repeat' split at h
   all_goals first
@@ -212,6 +212,48 @@ theorem rowCells_some (s t : AState) (vals : List (Option CifValue)) (c : RowCel
     simp only [Prod.mk.injEq, Option.some.injEq] at h
     obtain ⟨rfl, _⟩ := h
     refine ⟨?_, ?_, ?_, ?_, ?_, ?_⟩ <;> (apply reqCol_eq_some; assumption)
+
+/-- the chain id of a row: the author's cell when it has a value, else the label cell -/
+def ChainOf (vals : List (Option CifValue)) (chain : List Char) : Prop :=
+  (colText ((vals[11]?).join)).val = some chain ∨
+  ((colText ((vals[11]?).join)).val = none ∧ (colText ((vals[10]?).join)).val = some chain)
+
+/-- the residue number of a row: the author's cell when it holds a number, else the label cell, else a count -/
+def NumberOf (vals : List (Option CifValue)) (n : Int) : Prop :=
+  (colIsize ((vals[22]?).join)).val = some n ∨
+  ((colIsize ((vals[22]?).join)).val = none ∧ ∃ total : Nat, n = (colIsize ((vals[21]?).join)).val.getD (total : Int))
+
+theorem rowChain_some (s t : AState) (vals : List (Option CifValue)) (c : List Char) (h : rowChain s vals = (some c, t)) :
+    ChainOf vals c := by
+  unfold rowChain at h
+  simp only at h
+  split at h
+  · next a ha =>
+    simp only [Prod.mk.injEq, Option.some.injEq] at h
+    exact Or.inl (h.1 ▸ ha)
+  · next ha => exact Or.inr ⟨ha, reqCol_eq_some _ _ _ _ h⟩
+
+theorem rowResNum_value (s : AState) (vals : List (Option CifValue)) : NumberOf vals (rowResNum s vals).1 := by
+  unfold rowResNum
+  simp only
+  split
+  · next n hn => exact Or.inl hn
+  · next hn => exact Or.inr ⟨hn, _, rfl⟩
+
+/-- the chain id and residue number that come back prefer the author's cells -/
+theorem rowCells_ids (s t : AState) (vals : List (Option CifValue)) (c : RowCells) (h : rowCells s vals = (some c, t)) :
+    ChainOf vals c.chain ∧ NumberOf vals c.resNum := by
+  unfold rowCells bindS at h
+  simp only at h
+  repeat' split at h
+  all_goals first
+    | (cases h; done)
+    | skip
+  all_goals
+    simp only [Prod.mk.injEq, Option.some.injEq] at h
+    obtain ⟨rfl, _⟩ := h
+    refine ⟨?_, rowResNum_value _ vals⟩
+    apply rowChain_some; assumption
 
 /-! ### the optional cells, the row's model, the tensor -/
 
@@ -227,6 +269,13 @@ theorem rowOptional_values (s : AState) (vals : List (Option CifValue)) :
   unfold rowOptional
   simp only
   exact ⟨trivial, trivial, trivial⟩
+
+theorem rowOptional_ids (s : AState) (vals : List (Option CifValue)) :
+    (rowOptional s vals).1.alt = (colText ((vals[0]?).join)).val ∧
+    (rowOptional s vals).1.ins = (colText ((vals[17]?).join)).val := by
+  unfold rowOptional
+  simp only
+  exact ⟨trivial, trivial⟩
 
 theorem rowModel_atoms (ms : List Model) (n : Nat) : modelsAtoms (rowModel ms n).1 = modelsAtoms ms := by
   unfold rowModel
